@@ -726,69 +726,6 @@ theorem round_up_to_mib_eq (n : Nat) (h : n < U64) : Kernels.round_up_to_mib n =
   unfold Kernels.round_up_to_mib
   split <;> omega
 
-/-- the hash-size computation of `lz_encoder_prepare` (the `hs |= hs >> k` smear and the 2^24 clamp) is the model's `hashMask` -/
-theorem lz_encoder_hash_mask_eq (hb ds : Nat) (h1 : 1 ≤ ds) (h2 : ds < 4294967296) :
-    Kernels.lz_encoder_prepare_if4 hb ds = Memusage.hashMask ds hb := by
-  unfold Kernels.lz_encoder_prepare_if4 Kernels.lz_encoder_prepare_if3 Kernels.lz_encoder_prepare_if2 Memusage.hashMask Memusage.U32
-  have e1 : (ds + 18446744073709551616 - 1) % 18446744073709551616 % 4294967296 = ds - 1 := by omega
-  have e2 : (ds - 1) % 4294967296 = ds - 1 := by omega
-  simp only [e1, e2, Nat.shiftRight_eq_div_pow, Nat.reducePow]
-
-/-- `lz_encoder_prepare(mf, allocator, lz_options)` against the C09 model `Memusage.lzEncoderPrepare`: it returns true
-    exactly where the model answers `none`, and otherwise leaves the model's `size`, `hash_count`, `sons_count` in `*mf`
-    (result components 9, 3, 10), whatever `*mf` held before.  `dict_size` is a `uint32_t`; the three `size_t` members
-    must not make the 64-bit sum `before_size + match_len_max + after_size` wrap (the callers pass 4096 / 65536−dict, 273, 4097). -/
-theorem lz_encoder_prepare_eq (o : Memusage.LzOptions) (m0 m1 m2 m3 m4 m5 m6 m7 m8 m9 : Nat)
-    (hd : o.dictSize < U32) (hsum : o.beforeSize + o.matchLenMax + o.afterSize + 1048576 < U64) :
-    (Kernels.lz_encoder_prepare m0 m1 m2 m3 m4 m5 m6 m7 m8 m9 o.afterSize o.beforeSize o.depth o.dictSize o.matchFinder o.matchLenMax o.niceLen).1
-        = (Memusage.lzEncoderPrepare o).isNone
-    ∧ ∀ s, Memusage.lzEncoderPrepare o = some s →
-        (Kernels.lz_encoder_prepare m0 m1 m2 m3 m4 m5 m6 m7 m8 m9 o.afterSize o.beforeSize o.depth o.dictSize o.matchFinder o.matchLenMax o.niceLen).2.2.2.1 = s.hashCount
-        ∧ (Kernels.lz_encoder_prepare m0 m1 m2 m3 m4 m5 m6 m7 m8 m9 o.afterSize o.beforeSize o.depth o.dictSize o.matchFinder o.matchLenMax o.niceLen).2.2.2.2.2.2.2.2.2.1 = s.size
-        ∧ (Kernels.lz_encoder_prepare m0 m1 m2 m3 m4 m5 m6 m7 m8 m9 o.afterSize o.beforeSize o.depth o.dictSize o.matchFinder o.matchLenMax o.niceLen).2.2.2.2.2.2.2.2.2.2 = s.sonsCount := by
-  obtain ⟨bs, ds, as, mlm, nl, mf, dp⟩ := o
-  simp only at hd hsum ⊢
-  unfold U32 at hd; unfold U64 at hsum
-  unfold Memusage.lzEncoderPrepare Memusage.DICT_SIZE_MIN Memusage.ENC_DICT_SIZE_MAX
-  simp only
-  by_cases hv : (ds ≥ 4096 ∧ ds ≤ 1610612736) ∧ ¬ nl > mlm
-  · obtain ⟨⟨hd1, hd2⟩, hn⟩ := hv
-    have hg : ¬ (¬ (ds ≥ 4096 ∧ ds ≤ 1610612736) ∨ nl > mlm) := by omega
-    have hcond : ¬ ((!decide (ds ≥ 4096 ∧ ds ≤ 1610612736)) = true ∨ nl > mlm) := by
-      simp only [Bool.not_eq_true', decide_eq_false_iff_not]; exact hg
-    rw [if_neg hcond]
-    unfold Kernels.lz_encoder_prepare
-    rw [if_neg hg]
-    by_cases hmf : mf = 3 ∨ mf = 4 ∨ mf = 18 ∨ mf = 19 ∨ mf = 20
-    · have hsup : Memusage.mfSupported mf = true := by
-        unfold Memusage.mfSupported Memusage.MF_HC3 Memusage.MF_HC4 Memusage.MF_BT2 Memusage.MF_BT3 Memusage.MF_BT4
-        simp only [decide_eq_true_eq]; omega
-      simp only [hsup, Bool.not_true, Bool.false_eq_true, if_false]
-      rw [if_neg (by omega)]
-      refine ⟨rfl, ?_⟩
-      intro s hs
-      injection hs with hs
-      subst hs
-      simp only [lz_encoder_hash_mask_eq _ ds (by omega) hd]
-      unfold Kernels.lz_encoder_prepare_if1 Kernels.lz_encoder_prepare_if5 Kernels.lz_encoder_prepare_if6 Kernels.lz_encoder_prepare_if7
-        Kernels.mf_get_hash_bytes Memusage.mfHashBytes Memusage.U32 Memusage.HASH_2_SIZE Memusage.HASH_3_SIZE
-      generalize Memusage.hashMask ds (mf % 16) = H
-      rcases hmf with rfl | rfl | rfl | rfl | rfl <;>
-        simp only [Nat.reduceMod, Nat.reduceDiv, Nat.reduceMul, Nat.reduceGT, Nat.reduceEqDiff, ne_eq, not_false_eq_true, not_true_eq_false,
-          decide_true, decide_false, if_true, if_false, Bool.false_eq_true] <;>
-        refine ⟨?_, ?_, ?_⟩ <;> (repeat' split) <;> first | omega | exact True.intro
-    · have hsup : Memusage.mfSupported mf = false := by
-        unfold Memusage.mfSupported Memusage.MF_HC3 Memusage.MF_HC4 Memusage.MF_BT2 Memusage.MF_BT3 Memusage.MF_BT4
-        simp only [decide_eq_false_iff_not]; omega
-      rw [if_pos (by omega)]
-      simp [hsup]
-  · have hg : ¬ (ds ≥ 4096 ∧ ds ≤ 1610612736) ∨ nl > mlm := by omega
-    unfold Kernels.lz_encoder_prepare
-    rw [if_pos hg]
-    simp only [Bool.not_eq_true', decide_eq_false_iff_not]
-    rw [if_pos hg]
-    simp
-
 /-! ## The call sites of `index_file_size` meet the domain of `index_file_size_eq` (audit item S-8) -/
 
 /-- what every accumulator reachable by `Container.indexAppend` satisfies: the List of Records is at most
